@@ -22,7 +22,7 @@ func init() {
 		Assumptions: []string{
 			"tolerance = 1e-9 relative + the conditioning bound of the formula (1.2e-16 x sum_i (t_i/p_i + (1-t_i)/(1-p_i))/N): log(1-p) at p = 1-1e-12 amplifies the rounding of 1-p by 1e12, and a reformulation of the same mathematical value must not alarm",
 		},
-		FloorQuick: 2000, FloorThor: 30000,
+		FloorQuick: 8000, FloorThor: 100000,
 		Run: runC12,
 	})
 }
@@ -105,7 +105,7 @@ func runC12(c *fw.Ctx) {
 				if kind != "ce" && cl > 1 {
 					continue
 				}
-				reps := c.Pick(40, 600)
+				reps := c.Pick(150, 3000)
 				if kind != "ce" {
 					reps *= 4
 				}
